@@ -446,6 +446,24 @@ def overrides(rep):
                               'in the order %s, through %s) gives the defaults %r, expected %r'
                               % (order, via, got, want), {})
     rep.nontrivial.add('nested-overrides')
+    # an override given to a composite later reaches that composite only: not
+    # the composer it came from, not the composites generated from it afterwards
+    rep.evaluations += 1
+    import copy as _copy
+    given = {'p1': {'v': {'x': {'_emit': False}}}}
+    composer = Two({'_schema': _copy.deepcopy(given)})
+    first = composer.generate()
+    first.merge(schema_override={'p1': {'v': {'x': {'_default': 9}}}})
+    second = composer.generate()
+    got = {'composer': composer.schema_override,
+           'second': second['processes']['p1'].get_schema()['v']['x'].get('_default'),
+           'first': first['processes']['p1'].get_schema()['v']['x'].get('_default')}
+    if got != {'composer': given, 'second': 0, 'first': 9}:
+        rep.violation({'kind': 'override', 'via': 'merge', 'what': 'leak'},
+                      'C16 merge(schema_override={p1: v.x._default 9}) on one generated '
+                      'composite: the composer\'s override, the default of p1 in a composite '
+                      'generated afterwards and in the composite itself are %r, expected %r'
+                      % (got, {'composer': given, 'second': 0, 'first': 9}), {})
     # a process and a step under one name cannot both be kept: rejected everywhere
     rep.evaluations += 1
 
